@@ -57,6 +57,12 @@ Theorem C07_decoding_is_deterministic : forall c a D T, decodes c a D T -> foral
 Proof. exact decodes_fun. Qed.
 Print Assumptions C07_decoding_is_deterministic.
 
+(* the model's loops are run on explicit fuel; for the chunked reader the fuel is always sufficient:
+   EOutOfFuel is never what a read answers (so the error terminal of a body is always a real error) *)
+Theorem C07_chunked_read_never_out_of_fuel : forall c n k, cr_inv k -> 0 < n -> fst (reader_read c n k) <> inr EOutOfFuel.
+Proof. exact chunked_read_never_out_of_fuel. Qed.
+Print Assumptions C07_chunked_read_never_out_of_fuel.
+
 (* ---- non-vacuity ---- *)
 Definition ex_chunked : bytes :=      (* 5\r\nhel\nl\r\n3;x=y\r\no\nw\r\n0\r\nT: 1\r\n\r\nNEXT *)
   [53;13;10;104;101;108;10;108;13;10;51;59;120;61;121;13;10;111;10;119;13;10;48;13;10;84;58;32;49;13;10;13;10;78;69;88;84]%N.
